@@ -51,7 +51,7 @@ func mixinDoc(d *D, idx int, cfg MixinCfg) O {
 			if d.Pct(50) {
 				c["email"] = sf("ce%d", idx)
 			}
-			for _, k := range d.Subset([]string{"x-c1", "x-c2"}, 30) {
+			for _, k := range d.Subset([]string{"x-c1", "x-c2", "x-shared"}, 30) {
 				c[k] = sf("%s-%d", k, idx)
 			}
 			info["contact"] = c
@@ -64,12 +64,12 @@ func mixinDoc(d *D, idx int, cfg MixinCfg) O {
 			if d.Pct(50) {
 				l["url"] = sf("lu%d", idx)
 			}
-			for _, k := range d.Subset([]string{"x-l1", "x-l2"}, 30) {
+			for _, k := range d.Subset([]string{"x-l1", "x-l2", "x-shared"}, 30) {
 				l[k] = sf("%s-%d", k, idx)
 			}
 			info["license"] = l
 		}
-		for _, k := range d.Subset([]string{"x-i1", "x-i2"}, 30) {
+		for _, k := range d.Subset([]string{"x-i1", "x-i2", "x-shared"}, 30) {
 			info[k] = sf("%s-%d", k, idx)
 		}
 		doc["info"] = info
@@ -87,7 +87,7 @@ func mixinDoc(d *D, idx int, cfg MixinCfg) O {
 		doc["externalDocs"] = ed
 		d.Label(sf("externalDocs:%s", side(idx)))
 	}
-	for _, k := range d.Subset([]string{"x-a", "x-b", "x-c"}, 30) {
+	for _, k := range d.Subset([]string{"x-a", "x-b", "x-c", "x-shared"}, 30) {
 		doc[k] = sf("%s-%d", k, idx)
 	}
 	strs := func(pool []string, key string) {
@@ -145,7 +145,12 @@ func mixinDoc(d *D, idx int, cfg MixinCfg) O {
 	keyed("parameters", []string{"pa", "pb", "pc"}, func(k string) J {
 		return O{"name": k, "in": "query", "type": "string", "description": sf("%s-%d", k, idx)}
 	})
-	keyed("responses", []string{"ra", "rb", "rc"}, func(k string) J { return O{"description": sf("%s-%d", k, idx)} })
+	keyed("responses", []string{"ra", "rb", "rc"}, func(k string) J {
+		if d.Pct(25) {
+			return O{"description": k} // the same value in every document: a collision of identical entries
+		}
+		return O{"description": sf("%s-%d", k, idx)}
+	})
 	if d.Pct(80) {
 		paths := O{}
 		// ids are unique within one document: drawn without replacement from a small pool
